@@ -939,10 +939,36 @@ fn prop(case: &Case, st: &mut Stats, tol: Tolerate) -> Verdict {
                 if !same_pool && comparable {
                     st.label("pool:compared-across-different-pools");
                 }
-                if comparable && results.len() == 2 && results[0] != results[1] {
+                // across different pools the verdict must agree, but which of several unresolvable
+                // out points is named first legitimately depends on what each pool holds
+                let differ = |x: &PoolRes, y: &PoolRes| -> bool {
+                    if same_pool {
+                        return x != y;
+                    }
+                    let strip = |r: &PoolRes| match r {
+                        PoolRes::Err(e) => PoolRes::Err(e.split("OutPoint(").next().unwrap_or("").to_string()),
+                        other => other.clone(),
+                    };
+                    strip(x) != strip(y)
+                };
+                if comparable && results.len() == 2 && differ(&results[0], &results[1]) {
+                    // what the pools really hold (dump hook) next to what get_all_ids lists
+                    let mut hidden = String::new();
+                    for (who, n, ctx) in [("A", &node_a, &ctx_a), ("B", &node_b, &ctx_b)] {
+                        if let Ok(d) = n.shared.tx_pool_controller().verif_dump() {
+                            let extra: Vec<String> = d
+                                .entries
+                                .iter()
+                                .filter(|e| !ctx.ids.contains(&h32(&e.tx_hash)))
+                                .map(|e| format!("{:#x}", e.tx_hash).chars().take(14).collect())
+                                .collect();
+                            hidden.push_str(&format!(" node {who}: {} entries in the dump, {} listed by get_all_ids, not listed: {:?};", d.entries.len(), ctx.ids.len(), extra));
+                        }
+                    }
                     vfail!(
                         "context:pool-verdict-differs:test_accept_tx",
-                        "same chain, same pool contents, tip #{tipn}: node A {:?}, node B {:?}; tx = {}",
+                        "same chain, {} (the model judges the transaction alike in both), tip #{tipn}: node A {:?}, node B {:?}; tx = {};{hidden}",
+                        if same_pool { "same pool contents" } else { "pools differing in unrelated transactions" },
                         results[0],
                         results[1],
                         tx_brief(&c.tx)
